@@ -252,6 +252,34 @@ impl Store {
     }
 }
 
+/// # Access to the path functions for the verification harness
+#[cfg(feature = "verif-hooks")]
+impl Store {
+    /// The path of the stored trust anchor certificate for `uri`.
+    pub fn verif_ta_path(&self, uri: &TalUri) -> PathBuf {
+        self.ta_path(uri)
+    }
+
+    /// The directory of the stored RRDP repository for `uri`.
+    pub fn verif_rrdp_repository_path(&self, uri: &uri::Https) -> PathBuf {
+        self.rrdp_repository_path(uri)
+    }
+
+    /// The stored repository for an optional rpkiNotify URI.
+    pub fn verif_repository(
+        &self, rpki_notify: Option<uri::Https>
+    ) -> Repository {
+        Repository::new(self, rpki_notify)
+    }
+
+    /// The path of the stored publication point for a manifest URI.
+    pub fn verif_point_path(
+        &self, rpki_notify: Option<uri::Https>, manifest_uri: &uri::Rsync
+    ) -> PathBuf {
+        Repository::new(self, rpki_notify).point_path(manifest_uri)
+    }
+}
+
 /// # Dumping of stored data
 impl Store {
     /// Dumps the content of the store to `dir`.
@@ -1482,6 +1510,71 @@ impl StoredStatus {
         Self::VERSION.compose(writer)?;
         self.last_update.compose(writer)?;
         Ok(())
+    }
+}
+
+
+//------------ Access for the verification harness (codec checks) ------------
+
+#[cfg(feature = "verif-hooks")]
+impl StoredPointHeader {
+    /// Creates a header from all its parts (`success` selects the status).
+    pub fn verif_from_parts(
+        manifest_uri: uri::Rsync,
+        rpki_notify: Option<uri::Https>,
+        success: bool,
+        time: Time,
+    ) -> Self {
+        Self {
+            manifest_uri, rpki_notify,
+            update_status: if success {
+                UpdateStatus::Success(time)
+            }
+            else {
+                UpdateStatus::LastAttempt(time)
+            }
+        }
+    }
+
+    /// Returns all parts of the header.
+    pub fn verif_parts(
+        &self
+    ) -> (&uri::Rsync, Option<&uri::Https>, bool, Time) {
+        let (success, time) = match self.update_status {
+            UpdateStatus::Success(time) => (true, time),
+            UpdateStatus::LastAttempt(time) => (false, time),
+        };
+        (&self.manifest_uri, self.rpki_notify.as_ref(), success, time)
+    }
+}
+
+#[cfg(feature = "verif-hooks")]
+impl StoredPoint {
+    /// `open` for the verification harness.
+    pub fn verif_open(
+        path: PathBuf,
+        manifest_uri: &uri::Rsync,
+        rpki_notify: Option<&uri::Https>,
+    ) -> Result<Self, Failed> {
+        Self::open(path, manifest_uri, rpki_notify)
+    }
+
+    /// The header of the stored point.
+    pub fn verif_header(&self) -> &StoredPointHeader {
+        &self.header
+    }
+
+    /// `update` with the temporary file created in `tmp_dir`.
+    pub fn verif_update_in(
+        &mut self,
+        tmp_dir: &Path,
+        manifest: StoredManifest,
+        objects: impl FnMut() -> Result<Option<StoredObject>, UpdateError>
+    ) -> Result<(), UpdateError> {
+        let tmp_file = NamedTempFile::new_in(tmp_dir).map_err(|_| {
+            UpdateError::fatal()
+        })?;
+        self._update(tmp_file, manifest, objects)
     }
 }
 
